@@ -193,7 +193,7 @@ func fmtPending(l []pushpull.VerifC20Pending) string {
 		if i > 0 {
 			sb.WriteString(" ")
 		}
-		fmt.Fprintf(&sb, "(%s,h%d,pulled@%v)", e.Id, e.Hash[0]-1, e.Time.Sub(epoch))
+		fmt.Fprintf(&sb, "(%s,h%d,pulled@%v)", string(e.Id), e.Hash[0]-1, e.Time.Sub(epoch))
 	}
 	return "[" + sb.String() + "]"
 }
@@ -359,9 +359,10 @@ func (w *world) announce(pi, hi int) {
 		w.overlap = true
 	}
 	if w.sleepOn != nil && w.hazard == "" {
-		if len(snap) == 0 || snap[0].Id != w.sleepOn.Id || snap[0].Hash != w.sleepOn.Hash || !snap[0].Time.Equal(w.sleepOn.Time) {
+		// only a correctly sorted insertion (strictly earlier pull time) is the known shape
+		if len(snap) > 0 && snap[0].Time.Before(w.sleepOn.Time) {
 			w.hazard = fmt.Sprintf("at t=%v the loop was sleeping on head (%s,h%d,pulled@%v) when announce(P%d,h%d) inserted an entry with an earlier pull time ahead of it; pending=%s",
-				w.now(), w.sleepOn.Id, w.sleepOn.Hash[0]-1, w.sleepOn.Time.Sub(epoch), pi, hi, fmtPending(snap))
+				w.now(), string(w.sleepOn.Id), w.sleepOn.Hash[0]-1, w.sleepOn.Time.Sub(epoch), pi, hi, fmtPending(snap))
 			w.logf("    (entry inserted ahead of the head the loop sleeps on)")
 			evid.Count("a.hazard.insert-ahead-of-sleeping-head")
 		}
